@@ -357,10 +357,46 @@ fn quad_domain(q: &MQ) -> Result<(), String> {
 
 // ---------------------------------------------------------------- system under test
 
+/// A writer that implements only `write` (which accepts at most 7 bytes per call, as the
+/// `io::Write` contract allows) and `flush`: `write_vectored` falls back to the default.
+struct PlainWriter(std::rc::Rc<std::cell::RefCell<Vec<u8>>>);
+impl std::io::Write for PlainWriter {
+    fn write(&mut self, b: &[u8]) -> std::io::Result<usize> {
+        let n = b.len().min(7);
+        self.0.borrow_mut().extend_from_slice(&b[..n]);
+        Ok(n)
+    }
+    fn flush(&mut self) -> std::io::Result<()> {
+        Ok(())
+    }
+}
+/// the serialised bytes must not depend on the kind of writer
+fn same_on_other_writers(reference: &[u8], plain: Vec<u8>, buffered: Vec<u8>, who: &str) -> Result<(), String> {
+    for (name, got) in [("a writer implementing only write()", plain), ("a BufWriter over such a writer", buffered)] {
+        if got != reference {
+            let at = got.iter().zip(reference.iter()).position(|(a, b)| a != b).unwrap_or(got.len().min(reference.len()));
+            let ctx = |v: &[u8]| String::from_utf8_lossy(&v[at.saturating_sub(40)..(at + 40).min(v.len())]).to_string();
+            return Err(format!("{who}: output written to {name} differs from the stringifier output at byte {at}: {:?} vs {:?}", ctx(&got), ctx(reference)));
+        }
+    }
+    Ok(())
+}
+
 fn ser_nq(quads: &[MQ]) -> Result<String, String> {
     let d: Vec<Spog<SimpleTerm<'static>>> = quads.iter().map(MQ::to_spog).collect();
     let mut s = NqSerializer::new_stringifier();
     s.serialize_dataset(&d).map_err(|e| format!("NqSerializer error: {e}"))?;
+    {
+        let (pb, bb) = (std::rc::Rc::new(std::cell::RefCell::new(vec![])), std::rc::Rc::new(std::cell::RefCell::new(vec![])));
+        let mut p = NqSerializer::new(PlainWriter(pb.clone()));
+        p.serialize_dataset(&d).map_err(|e| format!("NqSerializer error on a plain writer: {e}"))?;
+        let mut b = NqSerializer::new(std::io::BufWriter::with_capacity(61, PlainWriter(bb.clone())));
+        b.serialize_dataset(&d).map_err(|e| format!("NqSerializer error on a BufWriter: {e}"))?;
+        drop(p);
+        drop(b); // a BufWriter flushes when dropped
+        let (plain, buffered) = (pb.borrow().clone(), bb.borrow().clone());
+        same_on_other_writers(s.as_utf8(), plain, buffered, "NqSerializer")?;
+    }
     std::str::from_utf8(s.as_utf8())
         .map(|x| x.to_string())
         .map_err(|e| format!("NqSerializer output is not UTF-8: {e}"))
@@ -369,6 +405,17 @@ fn ser_nt(quads: &[MQ]) -> Result<String, String> {
     let g: Vec<[SimpleTerm<'static>; 3]> = quads.iter().map(MQ::to_triple).collect();
     let mut s = NtSerializer::new_stringifier();
     s.serialize_graph(&g).map_err(|e| format!("NtSerializer error: {e}"))?;
+    {
+        let (pb, bb) = (std::rc::Rc::new(std::cell::RefCell::new(vec![])), std::rc::Rc::new(std::cell::RefCell::new(vec![])));
+        let mut p = NtSerializer::new(PlainWriter(pb.clone()));
+        p.serialize_graph(&g).map_err(|e| format!("NtSerializer error on a plain writer: {e}"))?;
+        let mut b = NtSerializer::new(std::io::BufWriter::with_capacity(61, PlainWriter(bb.clone())));
+        b.serialize_graph(&g).map_err(|e| format!("NtSerializer error on a BufWriter: {e}"))?;
+        drop(p);
+        drop(b);
+        let (plain, buffered) = (pb.borrow().clone(), bb.borrow().clone());
+        same_on_other_writers(s.as_utf8(), plain, buffered, "NtSerializer")?;
+    }
     std::str::from_utf8(s.as_utf8())
         .map(|x| x.to_string())
         .map_err(|e| format!("NtSerializer output is not UTF-8: {e}"))
